@@ -2,6 +2,7 @@ package exec
 
 import (
 	"fmt"
+	"sort"
 	"strings"
 	"testing"
 
@@ -68,6 +69,26 @@ func c11Graph() *hx.Graph {
 var c11VarDefs = "$i: Int, $j: Int = 5, $s: String, $sd: String = \"sdef\", $b: Boolean = false, $c: Boolean!, $in: In0, $l: [Int], $e: E0, $x: Float," +
 	// defaults that are containers holding containers: filling them in needs coercion work two levels down
 	" $ind: In0 = {r: 1, n: {y: true}, l: [1, 2]}, $ml: [In1] = [{y: false}, {y: true, x: 1}], $ld: [Int] = [3, 4]"
+
+// splitVarDefs splits the variable definitions at the commas between them (not those inside defaults).
+func splitVarDefs(defs string) []string {
+	var out []string
+	depth, start := 0, 0
+	for i, r := range defs {
+		switch r {
+		case '{', '[':
+			depth++
+		case '}', ']':
+			depth--
+		case ',':
+			if depth == 0 {
+				out = append(out, strings.TrimSpace(defs[start:i]))
+				start = i + 1
+			}
+		}
+	}
+	return append(out, strings.TrimSpace(defs[start:]))
+}
 
 type c11Step struct {
 	Op   string  `json:"op"`
@@ -369,7 +390,20 @@ func genCaseC11(t *rapid.T) *c11Case {
 		if len(usable) > 0 && rapid.Bool().Draw(t, name+"spreadShared") {
 			shared = " ..." + rapid.SampledFrom(usable).Draw(t, name+"shared").name
 		}
-		defs = append(defs, "query "+name+"("+c11VarDefs+") { "+g.sels("Query", 3, frags, name)+" "+entry+" { "+g.sels(sub, 2, frags, name+"t")+shared+" } }")
+		// operations of one document need not declare the same variables; a variable an operation
+		// uses (itself or through a shared fragment) without declaring it has no value there,
+		// whatever another operation was given for it earlier
+		varDefs := c11VarDefs
+		if nOps > 1 && rapid.IntRange(0, 2).Draw(t, name+"declaresFewer") == 0 {
+			var keep []string
+			for _, d := range splitVarDefs(c11VarDefs) {
+				if strings.HasPrefix(d, "$c:") || rapid.IntRange(0, 2).Draw(t, name+"declares"+d[:3]) != 0 {
+					keep = append(keep, d)
+				}
+			}
+			varDefs = strings.Join(keep, ", ")
+		}
+		defs = append(defs, "query "+name+"("+varDefs+") { "+g.sels("Query", 3, frags, name)+" "+entry+" { "+g.sels(sub, 2, frags, name+"t")+shared+" } }")
 	}
 	defs = append(defs, fragDefs...)
 	if len(defs) > 1 {
@@ -496,7 +530,23 @@ func checkC11(c *c11Case) (ds []hx.Discrepancy, traits map[string]bool) {
 
 // stripLoc keeps everything of the response (messages, paths) - locations too: a fresh parse has
 // the same positions.
-func stripLoc(m map[string]interface{}) interface{} { return m }
+// stripLoc: the errors one coercion of an input object reports come in the order ggql happens to walk
+// the object's members (a Go map): the order of the entries of "errors" is not part of what is
+// compared, the entries are.
+func stripLoc(m map[string]interface{}) interface{} {
+	es, ok := m["errors"].([]interface{})
+	if !ok || len(es) < 2 {
+		return m
+	}
+	cp := map[string]interface{}{}
+	for k, v := range m {
+		cp[k] = v
+	}
+	sorted := append([]interface{}{}, es...)
+	sort.SliceStable(sorted, func(i, j int) bool { return hx.Show(hx.Norm(sorted[i])) < hx.Show(hx.Norm(sorted[j])) })
+	cp["errors"] = sorted
+	return cp
+}
 
 func TestC11(t *testing.T) {
 	run := hx.NewRun("C11")
